@@ -145,6 +145,10 @@ Proof.
   - intros id cx r p E Er. unfold init_state in E. cbn [s_ctxs] in E.
     destruct (N.eq_dec root_id id) as [<-|Hne]; [rewrite nm_get_put_same in E; inversion E; subst cx; discriminate Er|].
     rewrite nm_get_put_other in E by exact Hne. rewrite nm_get_empty in E. discriminate.
+  - intros id cl E. unfold init_state in E. cbn [s_cells] in E. rewrite nm_get_empty in E. discriminate.
+  - intros id cx r p E Er. unfold init_state in E. cbn [s_ctxs] in E.
+    destruct (N.eq_dec root_id id) as [<-|Hne]; [rewrite nm_get_put_same in E; inversion E; subst cx; discriminate Er|].
+    rewrite nm_get_put_other in E by exact Hne. rewrite nm_get_empty in E. discriminate.
 Qed.
 
 (* ---- no value is ever reinterpreted as another type ---- *)
@@ -154,12 +158,27 @@ Corollary cells_hold_values_of_their_type ped repl lim fuel bl c s id cl : Inv s
 Proof.
   intros HI E. destruct (run_block_keeps_constants ped repl lim fuel bl c s HI) as [HI' _]. exact (i_kind _ HI' id cl E).
 Qed.
+(* ... and, for an enumerated, pointer or record value, of the user type of that NAME *)
+Corollary cells_hold_values_of_their_named_type ped repl lim fuel bl c s id cl : Inv s ->
+  nm_get id (s_cells (snd (run_block ped repl lim fuel bl c s))) = Some cl -> named_ok (c_val cl) (c_type cl).
+Proof.
+  intros HI E. destruct (run_block_keeps_constants ped repl lim fuel bl c s HI) as [HI' _]. exact (i_name _ HI' id cl E).
+Qed.
+(* in particular: a variable never holds a value of another enumerated type than its own *)
+Corollary enum_variables_hold_their_own_type ped repl lim fuel bl c s id cl tn i : Inv s ->
+  nm_get id (s_cells (snd (run_block ped repl lim fuel bl c s))) = Some cl -> c_val cl = PEnum tn i ->
+  dk (c_type cl) = KEnum /\ dname (c_type cl) = Some tn.
+Proof.
+  intros HI E Ev. split.
+  - rewrite <- (cells_hold_values_of_their_type ped repl lim fuel bl c s id cl HI E). rewrite Ev. reflexivity.
+  - apply (cells_hold_values_of_their_named_type ped repl lim fuel bl c s id cl HI E). rewrite Ev. reflexivity.
+Qed.
 (* a value an expression or statement returns is of the kind its result type says, and the state it leaves satisfies the invariant again *)
 Theorem results_are_of_their_type ped repl lim fuel n c s r s' p : Inv s ->
-  ev_eval (evs_at ped repl lim fuel) n c s = (Ok r, s') -> r_val r = Some p -> payload_kind p = dk (r_type r) /\ Inv s'.
+  ev_eval (evs_at ped repl lim fuel) n c s = (Ok r, s') -> r_val r = Some p -> payload_kind p = dk (r_type r) /\ named_ok p (r_type r) /\ Inv s'.
 Proof.
   intros HI E Ev. destruct (evs_at_ok ped repl lim fuel) as [He _].
-  destruct (He (fun _ => True) n c stable_true s HI I) as [A [_ B]]. rewrite E in A, B. cbn [fst snd] in A, B. split; [exact (proj2 (B p Ev))|exact A].
+  destruct (He (fun _ => True) n c stable_true s HI I) as [A [_ B]]. rewrite E in A, B. cbn [fst snd] in A, B. split; [exact (proj1 (proj2 (B p Ev)))|split; [exact (proj2 (proj2 (B p Ev)))|exact A]].
 Qed.
 
 (* ---- CONSTANT c = <literal> in an ordinary context creates such a cell ---- *)
